@@ -103,6 +103,24 @@ Ltac skipfacts :=
 Ltac posfacts := dup_eqs; repeat first [skipfacts | pfw]; unfold keep in *.
 
 
+(* the slices of a successful qname / attribute end inside the text *)
+Lemma mk_slice_end t a e sl : mk_slice t a e = Ok sl -> sl_end sl <= tlen t.
+Proof.
+  unfold mk_slice. intros H. destruct ((e <? a) || (tlen t <? e)) eqn:E; [discriminate|].
+  destruct (_ && _); [|discriminate]. inversion H; subst. cbn [sl_end]. lia.
+Qed.
+
+Lemma consume_qname_local_end t s pr lo s' : consume_qname t s = Ok (pr, lo, s') -> sl_end lo <= tlen t.
+Proof.
+  unfold consume_qname. intros H. bsteps; unfold slice_back in *;
+  match goal with Hm : mk_slice t _ _ = Ok lo |- _ => exact (mk_slice_end _ _ _ _ Hm) end.
+Qed.
+
+Lemma parse_attribute_local_end t s pr lo s' : parse_attribute t s = Ok (pr, lo, s') -> sl_end lo <= tlen t.
+Proof.
+  unfold parse_attribute. intros H. bsteps. eapply consume_qname_local_end; eauto.
+Qed.
+
 Section Trunc.
 Variable text : bytes.
 Variable n : N.
@@ -451,6 +469,13 @@ Proof.
   rewrite Heqb. eapply T_advance; eauto.
 Qed.
 
+Lemma E_consume_byte0 c s1 s2 s2' : sync s1 s2 -> consume_byte p c s2 = Ok s2' ->
+  exists s1', consume_byte text c s1 = Ok s1' /\ sync s1' s2'.
+Proof.
+  intros Hs H. unfold consume_byte in *. bsteps. rewrite (T_cb _ _ _ Hs Hb). cbn [bind].
+  rewrite Heqb. eapply T_advance; eauto.
+Qed.
+
 Lemma T_advance' k s1 s2 s2' : sync s1 s2 -> advance k s2 = Ok s2' ->
   (exists s1', advance k s1 = Ok s1' /\ sync s1' s2') \/ NG (s_pos s2').
 Proof. intros Hs H. left. eapply T_advance; eauto. Qed.
@@ -670,8 +695,8 @@ Proof.
   rewrite Heqb. tb T_advance'. tfin.
 Qed.
 
-Lemma T_parse_attribute s1 s2 s2' : sync s1 s2 -> parse_attribute p s2 = Ok s2' ->
-  (exists s1', parse_attribute text s1 = Ok s1' /\ sync s1' s2') \/ NG (s_pos s2').
+Lemma T_parse_attribute s1 s2 pr lo s2' : sync s1 s2 -> parse_attribute p s2 = Ok (pr, lo, s2') ->
+  (exists s1', parse_attribute text s1 = Ok (pr, lo, s1') /\ sync s1' s2') \/ NG (s_pos s2').
 Proof.
   intros Hs H. pose proof Hs as (_ & W2 & _). unfold parse_attribute in *. bsteps. posfacts.
   tb T_consume_qname. tb T_consume_eq. tb T_consume_quote.
@@ -680,11 +705,23 @@ Proof.
     [rewrite Hf2; cbn [bind]; clear Hs | right; ng_done] end.
   match goal with Hs : sync _ _, Hc : slice_back p _ _ = Ok _ |- _ =>
     destruct (T_slice_back _ _ _ _ Hs Hc) as [Hsl _] end.
-  match goal with Hs : sync ?a ?b |- _ => destruct Hs as (? & ? & E & ?) end.
-  rewrite E, Hsl. cbn [bind].
   match goal with Hc : consume_byte p _ _ = Ok _ |- _ =>
-    eapply T_consume_byte in Hc; [|unfold sync; eauto] end.
-  assumption.
+    eapply E_consume_byte0 in Hc; [|exact Hs2]; destruct Hc as (t3 & Hf3 & Hs3) end.
+  destruct Hs2 as (? & ? & E & ?).
+  rewrite E, Hsl. cbn [bind]. rewrite Hf3. cbn [bind]. left. eauto.
+Qed.
+
+Lemma T_parse_pseudo_attribute name s1 s2 s2' : sync s1 s2 -> parse_pseudo_attribute p name s2 = Ok s2' ->
+  (exists s1', parse_pseudo_attribute text name s1 = Ok s1' /\ sync s1' s2') \/ NG (s_pos s2').
+Proof.
+  intros Hs H. unfold parse_pseudo_attribute in *. cbv zeta in *.
+  apply bind_ok in H. destruct H as [[[pr lo] s2a] [Ha H]]. cbv beta iota in H.
+  pose proof (parse_attribute_local_end _ _ _ _ _ Ha) as Hle. rewrite tlen_p in Hle.
+  destruct (negb (slice_len pr =? 0) || negb (bytes_eqb (slice_bytes p lo) name)) eqn:Ec;
+    [exfalso; eapply err_from_not_ok; eauto|].
+  inversion H; subst s2a.
+  destruct (T_parse_attribute _ _ _ _ _ Hs Ha) as [(s1' & Hf & Hs')|Hng]; [|right; exact Hng].
+  rewrite Hf. cbn [bind]. rewrite <- (T_slice_bytes _ Hle), Ec. left. eauto.
 Qed.
 
 Lemma T_starts_with_space_false s1 s2 : sync s1 s2 -> starts_with_space s2 = false ->
@@ -760,7 +797,7 @@ Ltac twstep_s :=
     | bind (consume_qname _ _) _ => tb T_consume_qname
     | bind (consume_eq _ _) _ => tb T_consume_eq
     | bind (consume_quote _ _) _ => tb T_consume_quote
-    | bind (parse_attribute _ _) _ => tb T_parse_attribute
+    | bind (parse_pseudo_attribute _ _ _) _ => tb T_parse_pseudo_attribute
     | bind (decl_consume_spaces _ _) _ => tb T_decl_consume_spaces
     | skip_string _ _ _ => tb T_skip_string
     | consume_byte _ _ _ => tb T_consume_byte
